@@ -2,15 +2,16 @@
 C16 - relay view equals the latest consensus document, nothing carried over; identity codec bijection.
 
 Driver "history" - case:
-  {"pool":  [relay record, ...]          # vlib/consensusref.py format; identities distinct
+  {"v": 2,                               # case version (absent = 1: see build_documents)
+   "pool":  [relay record, ...]          # vlib/consensusref.py format; identities distinct
    "first": [pool index, ...]            # members of document 1 (may be empty: Tor without a consensus yet)
    "docs":  [[op, ...], ...]             # one op list per later document, applied to the previous document
    "chunk": null | n}                    # bytes per delivery to the protocol (null = one chunk per reply/event)
   ops (k, j index the relays of the document being edited, modulo its length):
    ["join", k]  k-th pool relay not currently listed joins (with its pool attributes)
-   ["leave", k] (ignored when it would empty a replacement consensus)
+   ["leave", k] (the last relay may leave: the next document is then empty)   ["clear"] every relay leaves
    ["flag", k, f]  toggle KNOWN_FLAGS[f]   (Running is never removed: Tor lists only running relays)
-   ["v6", k, [a-line values]]   ["bw", k, n|null]   ["policy", k, text|null]
+   ["v6", k, [a-line values]]   ["bw", k, n|null]   ["policy", k, text|null]   (w and p lines are independent)
    ["nick", k, name]   ["nickof", k, j]  (collide with relay j's nickname)
    ["addr", k, ip, orport, dirport]   ["desc", k, digest-hex, published]
   Document 1 is the data-block answer to GETINFO ns/all during a real TorState bootstrap; every later
@@ -33,6 +34,7 @@ from hypothesis import strategies as st
 
 from vlib import consensusref as cr
 from vlib import wire
+from vlib.harness import LogCapture
 from vlib.runner import HarnessError, Result, VERIF
 from vlib.statebootstrap import bootstrapped_state
 
@@ -40,23 +42,27 @@ PROPERTY = "C16"
 LEVEL = "exploration"
 RULE = ("Hypothesis-generated consensus histories: a pool of 1..8 relays (random and boundary 20-byte "
         "identities, nicknames drawn from a small set so duplicates are common, flag sets incl. "
-        "Guard/Authority/Named/Exit/Fast, 0..2 'a' lines, optional 'w Bandwidth=', optional 'p' after 'w') and "
-        "1..6 documents, each an edit of the previous one (join/leave, flag toggles, IPv6 set/cleared, "
+        "Guard/Authority/Named/Exit/Fast, 0..2 'a' lines, optional 'w Bandwidth=', optional 'p', each present or "
+        "absent on its own) and 1..6 documents, each an edit of the previous one (join/leave down to an empty "
+        "document and back, flag toggles, IPv6 set/cleared, "
         "bandwidth changed or w line dropped, nickname changed or made to collide, address/descriptor "
         "change); document 1 is served as the GETINFO ns/all data block of a real TorState bootstrap, "
         "the others as 650+NEWCONSENSUS events, optionally delivered in small chunks; after every document "
         "the complete relay view (routers, routers_by_hash, routers_by_name, all_routers, guards, "
         "authorities, per-relay attributes, lookups, object identity) is compared with an independent "
-        "document model. Non-trivial = >=2 documents, some relay listed in two consecutive documents, and "
-        "those two documents differ; distinct = distinct canonical JSON of the case. The 'codec' driver "
+        "document model. Non-trivial = >=2 documents and either some relay listed in two consecutive documents "
+        "that differ, or a non-empty document followed by an empty one; distinct = distinct canonical JSON of the case. The 'codec' driver "
         "checks hexIdFromHash/hashFromHexId on batches of random and boundary identities (non-trivial = "
         "non-empty batch).")
 ASSUMPTIONS = [
     "documents have the control-port form Tor emits (routerstatus_format_entry, NS_CONTROL_PORT): "
-    "'r nick id64 digest64 date time ip orport dirport', then 'a' lines, 's', optional 'w Bandwidth=N', "
-    "optional 'p' only after a 'w' line; entries sorted by identity; an identity at most once per document",
-    "every listed relay has at least the Running flag (Tor lists only running relays), so an 's' line always has a flag",
-    "a replacement consensus (NEWCONSENSUS) lists at least one relay; only the initial ns/all listing may be empty",
+    "'r nick id64 digest64 date time ip orport dirport', then 'a' lines, 's', optional 'w Bandwidth=N[ Unmeasured=1]', "
+    "optional 'p' (dir-spec 3.4.1 item order; w and p are each 'at most once' and independent, so an entry may have "
+    "a p line without a w line); entries sorted by identity; an identity at most once per document",
+    "every listed relay has at least the Running flag: dir-spec has relays that are not Running left out of the "
+    "consensus, so the bare line 's' (no flag at all, which Tor would write without a trailing blank) is not generated",
+    "any document, the initial ns/all listing as well as a replacement consensus, may list no relay at all; the "
+    "empty NEWCONSENSUS event is '650+NEWCONSENSUS' / '.' / '650 OK'",
     "nicknames are 1..19 alphanumerics (dir-spec); flags come from Tor's flag vocabulary plus Named/Unnamed",
     "flags are compared as a lower-cased multiset (Router.flags documents lower-case strings; order is unspecified); "
     "IPv6 addresses are compared as a multiset of the 'a' line values; ports are compared by their decimal text "
@@ -66,10 +72,10 @@ ASSUMPTIONS = [
     "lookup of a nickname that is duplicated in (or absent from) the latest document may raise KeyError, return None "
     "(TorState.routers documents 'keys by hexid and by unique names') or return a placeholder Router that is not from "
     "the consensus; returning a consensus relay is a violation",
-    "guards and authorities are compared as sets of relay objects; a string key is accepted if it is the member's "
-    "current nickname or its $fingerprint (a key that is a name the member no longer carries is left-over state); two "
-    "Authority relays sharing one nickname in the same document are an API-inherent ambiguity of the name-keyed "
-    "authorities dict and only 'at least one of them' is required for that nickname",
+    "guards and authorities are compared as sets of relay objects and must hold every relay carrying the flag, also "
+    "when several of them share a nickname; how they are keyed is open: a string key is accepted if it is the "
+    "member's current nickname or its $fingerprint (a key that is a name the member no longer carries is left-over "
+    "state)",
     "identity lookups use the forms Tor emits: '$HEX', '$HEX~nick', '$HEX=nick' with upper-case hex; identities that "
     "are not in the latest document are never looked up (router_from_id documents that it creates a placeholder)",
     "object identity is required only for relays listed in two consecutive documents",
@@ -98,7 +104,8 @@ IDX = {f: i for i, f in enumerate(cr.KNOWN_FLAGS)}
 # driver is the readable record.  fuzz/c16_atheris.py feeds the same functions from fuzzer bytes.
 
 OP_KINDS = ["join", "leave", "leave", "flag", "flag", "flag", "v6", "v6", "bw", "bw", "policy", "nick", "nickof",
-            "addr", "desc"]
+            "addr", "desc", "clear"]
+CASE_VERSION = 2        # see build_documents: version-1 cases (older replays) keep their original meaning
 FAV_FLAGS = ["Guard", "Guard", "Authority", "Authority", "Named", "Exit", "Fast"]
 BW_TABLE = [0, 1, 20, 166, 51500, 518000, 10000000, 2 ** 31 - 1]
 PORT_TABLE = [443, 9001, 9030, 65535, 80, 1]
@@ -185,12 +192,14 @@ def make_relay(raw, m1, m2):
             "ip": make_ipv4((m2 >> 8) & 0xffffffff), "orport": make_port((m2 >> 40) & 0x3ffff, False),
             "dirport": 0 if (m1 >> 61) & 1 else make_port((m2 >> 44) & 0x3ffff, True),
             "a": a, "flags": flags, "bw": bw,
-            "policy": make_policy((m1 >> 62) + (m2 >> 58)) if bw is not None else None}
+            "policy": make_policy((m1 >> 62) + (m2 >> 58))}
 
 
 def make_op(kind, k, x):
     kind = OP_KINDS[kind % len(OP_KINDS)]
     k = k % 8
+    if kind == "clear":
+        return [kind]
     if kind in ("join", "leave"):
         return [kind, k]
     if kind == "flag":
@@ -220,7 +229,7 @@ def make_case(relays, first, docs, chunk):
         if r["id"] not in seen:
             seen.add(r["id"])
             pool.append(r)
-    return {"pool": pool, "first": first, "docs": docs, "chunk": chunk}
+    return {"v": CASE_VERSION, "pool": pool, "first": first, "docs": docs, "chunk": chunk}
 
 
 # --------------------------------------------------------------------------- strategies
@@ -288,13 +297,16 @@ def build_documents(case, res=None):
             i %= len(pool)
             if i not in first_idx:
                 first_idx.append(i)
+        # version 1 (replays written before documents were allowed to lose every relay and before a p line
+        # could stand without a w line): "leave" never removes the last relay, an empty replacement document
+        # gets pool[0], dropping the w line drops the p line, and a policy needs a bandwidth
+        legacy = case.get("v", 1) < 2
         live = [_copy(pool[i]) for i in first_idx]
         docs = [[_copy(r) for r in live]]
         for ops in case["docs"]:
             for op in ops:
-                _apply(op, live, pool)
-            if not live:
-                # a replacement consensus always lists someone
+                _apply(op, live, pool, legacy)
+            if legacy and not live:
                 live.append(_copy(pool[0]))
             docs.append([_copy(r) for r in live])
         rendered = []
@@ -315,8 +327,11 @@ def _copy(r):
     return r
 
 
-def _apply(op, live, pool):
+def _apply(op, live, pool, legacy=False):
     kind = op[0]
+    if kind == "clear":
+        del live[:]
+        return
     if kind == "join":
         listed = set(r["id"] for r in live)
         cand = [r for r in pool if r["id"] not in listed]
@@ -327,7 +342,7 @@ def _apply(op, live, pool):
         return
     r = live[op[1] % len(live)]
     if kind == "leave":
-        if len(live) > 1:
+        if len(live) > 1 or not legacy:
             live.remove(r)
     elif kind == "flag":
         f = cr.KNOWN_FLAGS[op[2] % NFLAGS]
@@ -340,10 +355,10 @@ def _apply(op, live, pool):
         r["a"] = list(op[2])
     elif kind == "bw":
         r["bw"] = op[2]
-        if op[2] is None:
+        if op[2] is None and legacy:
             r["policy"] = None
     elif kind == "policy":
-        if r["bw"] is not None:
+        if r["bw"] is not None or not legacy:
             r["policy"] = op[2]
     elif kind == "nick":
         r["nick"] = op[2]
@@ -515,18 +530,17 @@ def compare_view(res, state, want, n, prev_objs, earlier):
                         attr, k, fp, want[fp]["name"]))
                     break
         have = set(id(m) for m in members)
-        if attr == "authorities":
-            # name-keyed dict: for a nickname shared by several authorities one representative is enough
-            groups = {}
-            for fp in exp:
-                groups.setdefault(want[fp]["name"], []).append(fp)
-            for name in sorted(groups):
-                if not any(id(objs[fp]) in have for fp in groups[name]):
-                    res.bad(missing_tag, where + "authorities lacks %r (%s)" % (groups[name], name))
-        else:
-            for fp in sorted(exp):
-                if id(exp[fp]) not in have:
-                    res.bad(missing_tag, where + "%s lacks %s" % (attr, fp))
+        for fp in sorted(exp):
+            if id(exp[fp]) in have:
+                continue
+            twins = [o for o in sorted(exp) if o != fp and want[o]["name"] == want[fp]["name"]]
+            if twins:
+                # root cause of its own: the collection is keyed by something two of its members share
+                res.bad("%s-shadowed-by-same-nickname" % key,
+                        where + "%s lacks %s (%s): %s carries the same nickname and the same flag; %s has keys %r" % (
+                            attr, fp, want[fp]["name"], twins, attr, sorted(str(k) for k in coll.keys())))
+            else:
+                res.bad(missing_tag, where + "%s lacks %s (%s)" % (attr, fp, want[fp]["name"]))
 
     # lookups through the IRouterContainer API
     for fp in sorted(want):
@@ -570,19 +584,29 @@ def drive_history(case):
     prev_objs = {}
     earlier = {}
     for n, want in enumerate(views, 1):
+        logged = []
         if n > 1:
-            pipe.inject(wire.encode_event({"form": "data", "name": "NEWCONSENSUS", "first": "",
-                                           "more": rendered[n - 1]}))
+            with LogCapture() as cap:
+                pipe.inject(wire.encode_event({"form": "data", "name": "NEWCONSENSUS", "first": "",
+                                               "more": rendered[n - 1]}))
+            logged = cap.errors
         if pipe.escaped:
             e = pipe.escaped[0]
-            res.bad("document-rejected", "document %d: %s: %s escaped from dataReceived; lines %r" % (
+            res.bad(_rejection_tag(docs[n - 1]), "document %d: %s: %s escaped from dataReceived; lines %r" % (
                 n, type(e).__name__, e, rendered[n - 1]))
             break
         if n == 1 and not watch.succeeded:
-            res.bad("document-rejected", "bootstrap with document 1 ended %r; lines %r" % (
+            res.bad(_rejection_tag(docs[0]), "bootstrap with document 1 ended %r; lines %r" % (
                 watch.outcome(), rendered[0]))
             break
         objs = compare_view(res, state, want, n, prev_objs, earlier)
+        if not res.ok and logged:
+            # the protocol logs (and survives) an exception raised by an event listener: the view is wrong
+            # because the document was thrown away half-way, which is the root cause to name.  The log only
+            # picks the tag; a logged error with a correct view is no violation.
+            tag0, detail0 = res.problems[0]
+            res.problems[:] = [(_rejection_tag(docs[n - 1]), "document %d was rejected (%s); consequence: %s: %s; lines %r" % (
+                n, _log_text(logged[0]), tag0, detail0[:400], rendered[n - 1]))]
         if not res.ok or objs is None:
             break
         prev_objs = objs
@@ -592,12 +616,37 @@ def drive_history(case):
     return res
 
 
+def _log_text(ev):
+    f = ev.get("failure")
+    if f is not None:
+        return "%s: %s" % (getattr(f.type, "__name__", f.type), f.getErrorMessage())
+    return str(ev.get("why") or ev.get("message") or "error logged")[:300]
+
+
+def _rejection_tag(doc):
+    """A document with an entry that has a p line but no w line is a class (and, where rejected, a root cause)
+    of its own; every other rejected document is 'document-rejected'."""
+    if any(r["policy"] is not None and r["bw"] is None for r in doc):
+        return "p-line-without-w-line-rejected"
+    return "document-rejected"
+
+
 def _classify(res, case, docs, views):
     nontrivial = False
     if len(docs) >= 3:
         res.label("docs>=3")
     if not docs[0]:
         res.label("empty-first-document")
+    for i, d in enumerate(docs):
+        if any(r["policy"] is not None and r["bw"] is None for r in d):
+            res.label("p-line-without-w-line")
+        if i and not d:
+            res.label("empty-replacement-document")
+            if docs[i - 1]:
+                res.label("every-relay-left")
+                nontrivial = True
+            if i + 1 < len(docs) and docs[i + 1]:
+                res.label("relays-return-after-empty-document")
     if case.get("chunk"):
         res.label("chunked-delivery")
     seen_before = set()
@@ -794,8 +843,8 @@ def run(ctx):
         _run_atheris(ctx, 40000)
 
 
-# Text patterns refer to the tree with out/fixes/C16-*.diff applied (five of them revert or bypass exactly those
-# repairs, which is how the check's sensitivity to the two repaired defects is demonstrated).
+# Text patterns refer to the tree with fixes/C16-*.diff applied (seven of them revert or bypass exactly those
+# repairs, which is how the check's sensitivity to the four repaired defects is demonstrated).
 MUTANTS = [
     ("no-old-router-reuse", "txtorcon/torstate.py",
      "            self._old_routers = self.routers\n", "            self._old_routers = {}\n"),
@@ -831,6 +880,19 @@ MUTANTS = [
     ("bootstrap-listing-last-relay-deferred", "txtorcon/torstate.py",
      "        self._network_status_parser.done()\n\n        # update list of existing circuits",
      "\n        # update list of existing circuits"),
+    # --- documents that lose every relay; p without w; authorities sharing a nickname
+    ("event-payload-loses-closing-ok", "txtorcon/torcontrolprotocol.py",
+     "        self.response = ''\n        if self.code is None:",
+     "        self.response = ''\n        if resp.endswith('\\nOK'):\n            resp = resp[:-3]\n"
+     "        if self.code is None:"),
+    ("empty-consensus-taken-for-no-data", "txtorcon/torstate.py",
+     "        if len(data):\n            self._old_routers = self.routers",
+     "        if len(data) > 2:\n            self._old_routers = self.routers"),
+    ("authorities-last-same-nickname-wins", "txtorcon/torstate.py",
+     "            if self.authorities.get(key, router) is not router:\n                key = router.id_hex\n", ""),
+    ("p-line-needs-w-line", "txtorcon/_microdesc_parser.py",
+     "        waiting_w.add_transition(Transition(waiting_r, lambda x: x.startswith('p '), self._router_policy))"
+     "  # ... also when a \"p\" line follows\n", ""),
     ("p-line-not-optional", "txtorcon/_microdesc_parser.py",
      "        waiting_p.add_transition(Transition(waiting_s, lambda x: x.startswith('r '), self._router_begin))"
      "  # \"p\" lines are optional\n", ""),
